@@ -53,6 +53,42 @@ PROPS = {
         "rule": "one evaluation = one seeded tape; distinct = distinct (log size, i, j) triples verified plus distinct tapes; non-trivial = log of at least 3 events",
         "components": _WORLD_A, "assumptions": _WORLD_A_ASSUME,
     }, **_wa()),
+    "C04": dict({
+        "level": "exploration",
+        "technique": "deterministic simulation: every digest issued by any replica under seeded fault schedules compared with independent reference Merkle trees; regrouped twin runs on both store back-ends; tiny-LRU history tree",
+        "design_ref": "DESIGN.md §7 C04",
+        "level_text": "Every snapshot returned by every apply on every replica (after restarts, crashes, elections, state transfer) is compared with an independent reference history tree (per version) and reference sparse tree (per call boundary). The distinct-event sequence is then replayed with a different single/bulk partition into balloons over the B+tree and a fresh RocksDB store, and through a history tree with LRU capacity 1..300; all digests must equal the references.",
+        "level_note": "Trusted: the reference trees (written from the construction, calibrated once, golden vectors), SHA-256. Hyper comparison is switched off after the first repeated event of a run (property restricts itself to distinct events).",
+        "rule": "one evaluation = one seeded tape (cluster run + regrouped twins + LRU run); distinct = distinct tapes and (sequence length, LRU) pairs; non-trivial = at least 3 events",
+        "components": _WORLD_A + ["bplus"], "assumptions": _WORLD_A_ASSUME,
+    }, **_wa()),
+    "C05": dict({
+        "level": "exploration",
+        "technique": "deterministic simulation with fault injection: crashes before/after store writes, store errors, elections, lost proposals and lost acknowledgements; dense-version oracle against the single-copy log model",
+        "design_ref": "DESIGN.md §7 C05",
+        "level_text": "Seeded schedules of adds (API, HTTP, crafted), replication/apply interleavings, restarts, elections, leadership lost before commit, lost acknowledgements and armed crash/error points at the store seam. Oracles: every apply returns exactly the versions the committed-log position dictates with the right event digests; every entry is applied exactly once per durable state (replays skipped, nothing skipped otherwise); acknowledged versions match the committed log; each node's version, persisted FSM state, highest history leaf and the CurrentVersion of its proofs agree.",
+        "level_note": "Trusted: single-copy log model, environment fidelity. Crash = process kill; no torn writes.",
+        "rule": "one evaluation = one seeded tape; distinct = distinct tapes and acknowledgement shapes; non-trivial = at least 3 accepted events",
+        "components": _WORLD_A, "assumptions": _WORLD_A_ASSUME,
+    }, **_wa()),
+    "C06": dict({
+        "level": "exploration",
+        "technique": "deterministic simulation: seeded replication/apply interleavings with follower stop/restart, elections and joins on a 3-node simulated cluster; pairwise table dumps and cross-replica proof verification",
+        "design_ref": "DESIGN.md §7 C06",
+        "level_text": "At seeded points and after a final heal phase (bounded number of rounds once faults stop) any two running replicas whose last applied command is the same must have byte-identical Hyper, HyperCache, History and FSM-state tables and the same version; membership and consistency proofs served by every replica must verify against the reference digests that the leader's snapshots were checked against; replicas computing a snapshot for the same version must agree.",
+        "level_note": "Trusted: environment fidelity to raft (no two leaders at once; partitions modelled as undelivered events).",
+        "rule": "one evaluation = one seeded tape on 3 (+joiner) nodes; distinct = distinct tapes plus verified (size,event,version) and (size,i,j) triples; non-trivial = at least 3 events",
+        "components": _WORLD_A, "assumptions": _WORLD_A_ASSUME,
+    }, **_wa()),
+    "C09": dict({
+        "level": "exploration",
+        "technique": "deterministic simulation with fault injection: forced log compaction, state transfer to lagging and brand-new nodes with stream failures, crashes mid-load and leader loss; convergence and in-memory-state oracles",
+        "design_ref": "DESIGN.md §7 C09",
+        "level_text": "Schedules force compaction (trailing 0-2) and bring lagging, restarted or brand-new followers up to date through the real FetchSnapshot/chunkReader/LoadSnapshot path, with stream failure after k chunks, crash mid-load, leader stop and crash between persisting the snapshot and Restore. After a successful transfer the follower's tables must equal the leader's, its proofs (which exercise its in-memory hyper cache) must verify against reference digests, and every later apply on it must produce the reference digests; after faults stop the cluster must converge within a bounded number of rounds.",
+        "level_note": "Trusted: environment fidelity (install order persist-then-Restore, same-leader re-install vs new-term direct append, conformance-tested).",
+        "rule": "one evaluation = one seeded tape on 3 (+joiner) nodes; distinct = distinct tapes plus verified proof triples; non-trivial = at least 3 events",
+        "components": _WORLD_A, "assumptions": _WORLD_A_ASSUME,
+    }, **_wa()),
     "C14": {
         "level": "exploration",
         "technique": "deterministic simulation: seeded op/reopen tapes on both real back-ends vs per-table sorted-map model, ddmin-minimised replayable tapes",
